@@ -97,17 +97,67 @@ Proof.
   destruct Hl as [v Hl]; rewrite Hl; reflexivity.
 Qed.
 
-Definition sound_wrapper (w : wrapper) : bool :=
-  match w with MWU | Welch => false | _ => true end.
-
 Lemma incl_nil_keys : forall kw : kwargs, incl (keys kw) [] -> kw = [].
 Proof. intros [|[k v] r] H; [reflexivity|]. exfalso. apply (H k). left; reflexivity. Qed.
 
-Theorem forwarding_ok : forall w kw, sound_wrapper w = true -> kw_ok w kw ->
+(** ---- the dict display {k: d, .., **kw} ---- *)
+Lemma lookup_app : forall k a b, lookup k (a ++ b) = match lookup k a with Some v => Some v | None => lookup k b end.
+Proof.
+  intros k a b. induction a as [|[k' v] r IH]; [reflexivity|]. cbn. destruct (key_beq k k'); [reflexivity|exact IH].
+Qed.
+
+Lemma lookup_none_notin : forall k d, lookup k d = None -> ~ In k (keys d).
+Proof.
+  intros k d. induction d as [|[k' v] r IH]; cbn; [tauto|].
+  destruct (key_beq k k') eqn:E; [discriminate|]. intros H [G|G]; [|exact (IH H G)].
+  subst. assert (key_beq k k = true) by (apply key_beq_eq; reflexivity). congruence.
+Qed.
+
+Lemma lookup_some_in : forall k d v, lookup k d = Some v -> In k (keys d).
+Proof.
+  intros k d v. induction d as [|[k' v'] r IH]; [discriminate|]. cbn.
+  destruct (key_beq k k') eqn:E; [intros _; left; symmetry; apply key_beq_eq; exact E|intros H; right; exact (IH H)].
+Qed.
+
+Lemma lookup_filter : forall k ks kw, ~ In k ks ->
+  lookup k (filter (fun kv => negb (memk (fst kv) ks)) kw) = lookup k kw.
+Proof.
+  intros k ks kw Hn. induction kw as [|[k' v] r IH]; [reflexivity|]. cbn [filter fst].
+  destruct (memk k' ks) eqn:E; cbn [negb lookup].
+  - destruct (key_beq k k') eqn:E2; [|exact IH]. apply key_beq_eq in E2. subst. apply memk_In in E. contradiction.
+  - rewrite IH. reflexivity.
+Qed.
+
+Lemma lookup_dict_union : forall k d kw,
+  lookup k (dict_union d kw) = match lookup k d with Some dv => Some (get kw k dv) | None => lookup k kw end.
+Proof.
+  intros k d kw. unfold dict_union. rewrite lookup_app.
+  assert (H : lookup k (map (fun kd => (fst kd, get kw (fst kd) (snd kd))) d) =
+              match lookup k d with Some dv => Some (get kw k dv) | None => None end).
+  { induction d as [|[k' v] r IH]; [reflexivity|]. cbn. destruct (key_beq k k') eqn:E; [|exact IH].
+    apply key_beq_eq in E. subst. reflexivity. }
+  rewrite H. destruct (lookup k d) eqn:E; [reflexivity|]. apply lookup_filter, lookup_none_notin, E.
+Qed.
+
+Lemma keys_dict_union : forall d kw acc, incl (keys d) acc -> incl (keys kw) acc -> incl (keys (dict_union d kw)) acc.
+Proof.
+  intros d kw acc Hd Hk k Hin. unfold dict_union, keys in Hin. rewrite map_app, map_map in Hin.
+  apply in_app_or in Hin. destruct Hin as [Hin|Hin].
+  - apply Hd. exact Hin.
+  - apply Hk. apply in_map_iff in Hin. destruct Hin as [kv [E Hf]]. apply filter_In in Hf.
+    unfold keys. apply in_map_iff. exists kv. tauto.
+Qed.
+
+Ltac fwd_option kw Hl :=
+  cbn; try rewrite Hl; cbn; unfold get; try reflexivity;
+  match goal with |- context[lookup ?k kw] => destruct (lookup k kw); reflexivity end.
+
+Opaque dict_union.
+Theorem forwarding_ok : forall w kw, kw_ok w kw ->
   exists c, compare_call w kw = Ok c /\ forwarded w kw c.
 Proof.
-  intros w kw Hs [Hnd Hi]. rewrite (hops_ok w kw (accepted w) Hi) by (destruct w; reflexivity).
-  destruct w; try discriminate; unfold statistical_test.
+  intros w kw [Hnd Hi]. rewrite (hops_ok w kw (accepted w) Hi) by (destruct w; reflexivity).
+  destruct w; unfold statistical_test.
   - (* AD *)
     rewrite (scipy_call_ok _ _ kw (accepted AD) Hi) by reflexivity.
     eexists; split; [reflexivity|]. split; [reflexivity|]. split.
@@ -123,6 +173,25 @@ Proof.
     eexists; split; [reflexivity|]. split; [reflexivity|]. split.
     + intros k v Hin. in_cases Hin; reflexivity.
     + intros k Hin. in_cases Hin; reflexivity.
+  - (* MWU: defaults merged into the ** dictionary *)
+    pose proof (lookup_dict_union) as Hl.
+    assert (Hi' : incl (keys (dict_union [(Kalternative, VStr "two-sided"); (Knan_policy, VStr "raise")] kw)) (accepted MWU)).
+    { apply keys_dict_union; [|exact Hi]. intros k Hk. cbn in Hk. cbn. tauto. }
+    rewrite (scipy_call_ok _ _ _ (accepted MWU) Hi') by reflexivity.
+    eexists; split; [reflexivity|]. split; [reflexivity|]. split.
+    + intros k v Hin. in_cases Hin; reflexivity.
+    + intros k Hin. in_cases Hin; fwd_option kw Hl.
+  - (* Welch *)
+    pose proof (lookup_dict_union) as Hl.
+    assert (Hi' : incl (keys (dict_union [(Kalternative, VStr "two-sided")] kw)) (accepted Welch)).
+    { apply keys_dict_union; [|exact Hi]. intros k Hk. cbn in Hk. cbn. tauto. }
+    assert (He : lookup Kequal_var kw = None).
+    { destruct (lookup Kequal_var kw) eqn:E; [|reflexivity]. exfalso.
+      apply lookup_some_in, Hi in E. cbn in E. intuition discriminate. }
+    rewrite (scipy_call_ok _ _ _ (accepted Welch) Hi') by reflexivity.
+    eexists; split; [reflexivity|]. split; [reflexivity|]. split.
+    + intros k v Hin. in_cases Hin; reflexivity.
+    + intros k Hin. in_cases Hin; [cbn; unfold get; rewrite He; reflexivity | fwd_option kw Hl ..].
   - (* Kuiper: no option at all *)
     apply incl_nil_keys in Hi. subst kw.
     eexists; split; [reflexivity|]. split; [reflexivity|]. split.
@@ -135,72 +204,14 @@ Proof.
     + intros k Hin. in_cases Hin; reflexivity.
 Qed.
 
-(** ---- Mann-Whitney and Welch: a name passed explicitly and through ** ---- *)
-Definition twice (w : wrapper) : list key :=
-  match w with MWU => [Kalternative; Knan_policy] | Welch => [Kalternative] | _ => [] end.
+Transparent dict_union.
 
-Lemma clash_true : forall explicit kw k, In k (keys kw) -> In k (keys explicit) -> clash explicit kw = true.
-Proof.
-  intros explicit kw k Hk He. unfold clash. apply existsb_exists. exists k; split; [exact Hk|].
-  apply memk_In; exact He.
-Qed.
-
-Lemma incl_remove : forall (l acc rm : list key),
-  incl l acc -> (forall k, In k rm -> ~ In k l) ->
-  incl l (filter (fun k => negb (memk k rm)) acc).
-Proof.
-  intros l acc rm Hi Hn k Hk. apply filter_In; split; [apply Hi; exact Hk|].
-  destruct (memk k rm) eqn:E; [|reflexivity]. apply memk_In in E. exfalso; exact (Hn k E Hk).
-Qed.
-
-Theorem forwarding_twice : forall w kw, sound_wrapper w = false -> kw_ok w kw ->
-  ((exists k, In k (twice w) /\ In k (keys kw)) -> compare_call w kw = Raise TypeError) /\
-  ((forall k, In k (twice w) -> ~ In k (keys kw)) -> exists c, compare_call w kw = Ok c /\ forwarded w kw c).
-Proof.
-  intros w kw Hs [Hnd Hi]. rewrite (hops_ok w kw (accepted w) Hi) by (destruct w; reflexivity).
-  destruct w; try discriminate; unfold statistical_test; split.
-  - (* MWU, clash *)
-    intros [k [Hk Hin]]. unfold scipy_call, call_merge.
-    rewrite (clash_true _ kw k Hin); [reflexivity|]. cbn in Hk. cbn. tauto.
-  - intros Hn. pose proof (incl_remove _ _ (twice MWU) Hi Hn) as Hi'. cbn in Hi'.
-    rewrite (scipy_call_ok _ _ kw _ Hi') by reflexivity.
-    assert (Ha : lookup Kalternative kw = None /\ lookup Knan_policy kw = None).
-    { assert (G : forall k, ~ In k (keys kw) -> lookup k kw = None).
-      { clear. intros k. induction kw as [|[k' v] r IH]; [reflexivity|]. cbn. intros H.
-        destruct (key_beq k k') eqn:E; [apply key_beq_eq in E; subst; tauto|]. apply IH; tauto. }
-      split; apply G, Hn; cbn; tauto. }
-    destruct Ha as [Ha1 Ha2].
-    eexists; split; [reflexivity|]. split; [reflexivity|]. split.
-    + intros k v Hin. in_cases Hin; reflexivity.
-    + intros k Hin. in_cases Hin; cbn; unfold get; rewrite ?Ha1, ?Ha2; reflexivity.
-  - (* Welch, clash *)
-    intros [k [Hk Hin]]. unfold scipy_call, call_merge.
-    rewrite (clash_true _ kw k Hin); [reflexivity|]. cbn in Hk. cbn. tauto.
-  - intros Hn. pose proof (incl_remove _ _ (twice Welch) Hi Hn) as Hi'. cbn in Hi'.
-    rewrite (scipy_call_ok _ _ kw _ Hi') by reflexivity.
-    assert (Ha1 : lookup Kalternative kw = None).
-    { assert (G : forall k, ~ In k (keys kw) -> lookup k kw = None).
-      { clear. intros k. induction kw as [|[k' v] r IH]; [reflexivity|]. cbn. intros H.
-        destruct (key_beq k k') eqn:E; [apply key_beq_eq in E; subst; tauto|]. apply IH; tauto. }
-      apply G, Hn; cbn; tauto. }
-    assert (Ha2 : lookup Kequal_var kw = None).
-    { assert (G : forall k, ~ In k (keys kw) -> lookup k kw = None).
-      { clear. intros k. induction kw as [|[k' v] r IH]; [reflexivity|]. cbn. intros H.
-        destruct (key_beq k k') eqn:E; [apply key_beq_eq in E; subst; tauto|]. apply IH; tauto. }
-      apply G. intros H. apply Hi' in H. cbn in H. intuition discriminate. }
-    eexists; split; [reflexivity|]. split; [reflexivity|]. split.
-    + intros k v Hin. in_cases Hin; reflexivity.
-    + intros k Hin. in_cases Hin; cbn; unfold get; rewrite ?Ha1, ?Ha2; reflexivity.
-Qed.
-
-(** the full statement is false for Mann-Whitney and Welch (F19) *)
-Theorem forwarding_refuted : forall w, sound_wrapper w = false ->
-  exists kw, kw_ok w kw /\ compare_call w kw = Raise TypeError.
-Proof.
-  intros w Hs. exists [(Kalternative, VStr "less")].
-  destruct w; try discriminate; (split; [split; [repeat constructor; intros []|]|reflexivity]);
-    intros k [<-|[]]; cbn; tauto.
-Qed.
+(** a name the detector fixes itself is still refused (Welch: equal_var), and unknown names are *)
+Lemma forwarding_rejects_fixed :
+  compare_call Welch [(Kequal_var, VBool true)] = Raise TypeError /\
+  compare_call Kuiper [(Kalternative, VStr "less")] = Raise TypeError /\
+  compare_call CVM [(Kother, VInt 1)] = Raise TypeError.
+Proof. repeat split; reflexivity. Qed.
 
 (* ====================================================================== *)
 (** * Part 2 — ranks *)
@@ -732,35 +743,85 @@ Theorem chi2_relabel_invariant : forall {C C'} (ceq : C -> C -> bool) (ceq' : C'
 Proof. intros. apply chi2_stat_perm. eapply chi2_table_relabel; eassumption. Qed.
 
 (* ====================================================================== *)
-(** * Part 3 — Kuiper: witnesses on the binary64 run of the transliterated code *)
-From Coq Require Import PrimFloat.
+(** * Part 3 — Kuiper: the guard and the clip of the repaired code *)
+From Coq Require Import PrimFloat SpecFloat FloatOps FloatAxioms.
 From FV Require Import FloatA.
-Local Open Scope float_scope.
 
-(** F20: the p-value is NaN (negative base to a fractional power) ... *)
-Theorem kuiper_p_nan : 
-  let X := [1; 2; 3] in let Y := [0x1.8p+0; 0x1.4p+1; 0x1.cp+1] in   (* 1.5 2.5 3.5 *)
-  PrimFloat.is_nan (kuiper_p (A:=FloatA) X Y) = true /\ p_valid (A:=FloatA) (kuiper_p (A:=FloatA) X Y) = false.
-Proof. vm_compute. split; reflexivity. Qed.
+(** for every number system: at or below 1/N the answer is exactly 1 — the power with the
+    non-positive base (D - 1/N) ** (N - 1) is never evaluated *)
+Theorem kuiper_guard : forall (A : Arith) (D : num A) (n m : Z),
+  NumSys.leb D (NumSys.div NumSys.one (NumSys.div (NumSys.ofZ (n * m)) (NumSys.ofZ (n + m)))) = true ->
+  kuiper_fpp D n m = NumSys.one.
+Proof. intros A D n m H. unfold kuiper_fpp. cbv zeta. rewrite H. reflexivity. Qed.
 
-(** ... or larger than 1 (integral N: (D - 1/N)^(N-1) is negative) *)
-Theorem kuiper_p_above_one :
-  let X := [1; 3; 5; 7] in let Y := [2; 4; 6; 8] in
-  PrimFloat.ltb 1 (kuiper_p (A:=FloatA) X Y) = true /\ p_valid (A:=FloatA) (kuiper_p (A:=FloatA) X Y) = false.
-Proof. vm_compute. split; reflexivity. Qed.
-
-(** ... or negative (non-integral N, asymptotic series at D = 1) *)
-Theorem kuiper_p_below_zero :
-  let X := [1; 2; 3; 4; 5] in let Y := [6; 7; 8; 9; 10; 11; 12; 13] in
-  PrimFloat.ltb (kuiper_p (A:=FloatA) X Y) 0 = true /\ p_valid (A:=FloatA) (kuiper_p (A:=FloatA) X Y) = false.
-Proof. vm_compute. split; reflexivity. Qed.
-
-Theorem kuiper_pvalue_refuted : exists X Y : list float,
-  (2 <= zlen X)%Z /\ (2 <= zlen Y)%Z /\ p_valid (A:=FloatA) (kuiper_p (A:=FloatA) X Y) = false.
+(** over R: once the guard fails, the base of the first-branch power is positive *)
+Theorem kuiper_guard_base_R : forall D N : R,
+  @NumSys.leb RealA D (@NumSys.div RealA NumSys.one N) = false ->
+  @NumSys.ltb RealA NumSys.zero (@NumSys.sub RealA D (@NumSys.div RealA NumSys.one N)) = true.
 Proof.
-  exists [1; 2; 3], [0x1.8p+0; 0x1.4p+1; 0x1.cp+1]. split; [vm_compute; discriminate|]. split; [vm_compute; discriminate|].
-  exact (proj2 kuiper_p_nan).
+  intros D N H. unfold NumSys.zero, NumSys.one in *. cbn in *. apply Rleb_false in H. apply Rltb_true. lra.
 Qed.
+
+Theorem clip01_valid_R : forall p : R, p_valid (A:=RealA) (clip01 (A:=RealA) p) = true.
+Proof.
+  intros p. unfold p_valid, clip01, NumSys.zero, NumSys.one. cbn.
+  destruct (Rltb p 0) eqn:E1; [|destruct (Rltb 1 p) eqn:E2].
+  - apply andb_true_intro; split; apply Rleb_true; lra.
+  - apply andb_true_intro; split; apply Rleb_true; lra.
+  - apply Rltb_false in E1, E2. apply andb_true_intro; split; apply Rleb_true; lra.
+Qed.
+
+(** binary64: comparison of specification floats is antisymmetric *)
+Lemma SFcompare_antisym : forall x y, SFcompare y x = option_map CompOpp (SFcompare x y).
+Proof.
+  intros x y. destruct x as [sx|sx| |sx mx ex], y as [sy|sy| |sy my ey]; cbn; try reflexivity;
+    try (destruct sx; reflexivity); try (destruct sy; reflexivity); try (destruct sx, sy; reflexivity).
+  destruct sx, sy; cbn; try reflexivity; rewrite (Z.compare_antisym ex ey);
+    destruct (ex ?= ey)%Z; cbn; try reflexivity.
+  - rewrite (Pos.compare_cont_antisym mx my Eq). cbn. reflexivity.
+  - rewrite (Pos.compare_cont_antisym mx my Eq). reflexivity.
+Qed.
+
+Lemma SFcompare_some : forall x y, x <> S754_nan -> y <> S754_nan -> SFcompare x y <> None.
+Proof. intros x y Hx Hy. destruct x, y; cbn; congruence. Qed.
+
+Lemma SF_not_lt_le : forall x y, SFcompare x y <> None -> SFltb x y = false -> SFleb y x = true.
+Proof.
+  intros x y Hc Hl. unfold SFltb in Hl. unfold SFleb. rewrite (SFcompare_antisym x y).
+  destruct (SFcompare x y) as [[| |]|]; cbn in *; congruence.
+Qed.
+
+(** np.clip(p, 0, 1) of any binary64 value that is not NaN lies in [0, 1] *)
+Theorem clip01_valid : forall p : float, PrimFloat.is_nan p = false ->
+  p_valid (A:=FloatA) (clip01 (A:=FloatA) p) = true.
+Proof.
+  intros p Hn. unfold clip01, p_valid.
+  change (@NumSys.zero FloatA) with 0%float. change (@NumSys.one FloatA) with 1%float.
+  cbn [NumSys.ltb NumSys.leb FloatA].
+  destruct (PrimFloat.ltb p 0) eqn:E1; [vm_compute; reflexivity|].
+  destruct (PrimFloat.ltb 1 p) eqn:E2; [vm_compute; reflexivity|].
+  unfold PrimFloat.is_nan in Hn. apply negb_false_iff in Hn.
+  rewrite eqb_spec in Hn. rewrite ltb_spec in E1, E2. rewrite !leb_spec.
+  assert (H0 : Prim2SF 0 <> S754_nan) by (vm_compute; discriminate).
+  assert (H1 : Prim2SF 1 <> S754_nan) by (vm_compute; discriminate).
+  assert (Hp : Prim2SF p <> S754_nan) by (intros E; rewrite E in Hn; discriminate).
+  apply andb_true_intro; split; apply SF_not_lt_le; try assumption; apply SFcompare_some; assumption.
+Qed.
+
+(** _kuiper's p-value: whenever the series value is not NaN, the returned p is in [0,1] *)
+Theorem kuiper_p_valid : forall X Y : list float,
+  PrimFloat.is_nan (kuiper_fpp (A:=FloatA) (kuiper_stat (A:=FloatA) X Y) (zlen X) (zlen Y)) = false ->
+  p_valid (A:=FloatA) (kuiper_p (A:=FloatA) X Y) = true.
+Proof. intros X Y H. unfold kuiper_p. apply clip01_valid, H. Qed.
+
+Local Open Scope float_scope.
+(** the inputs on which the code before the repair returned NaN, 1.5 and -0.0047 *)
+Theorem kuiper_p_former_witnesses :
+  kuiper_p (A:=FloatA) [1; 2; 3] [0x1.8p+0; 0x1.4p+1; 0x1.cp+1] = 1 /\
+  kuiper_p (A:=FloatA) [1; 3; 5; 7] [2; 4; 6; 8] = 1 /\
+  kuiper_p (A:=FloatA) [1; 2; 3; 4; 5] [6; 7; 8; 9; 10; 11; 12; 13] = 0 /\
+  kuiper_p (A:=FloatA) [1; 2; 3] [1; 2; 3] = 1.
+Proof. vm_compute. repeat split; reflexivity. Qed.
 
 (** O2: the reported statistic is the KS distance D, which differs from Kuiper's V = D+ + D- *)
 Theorem kuiper_stat_is_not_V : exists X Y : list float,
